@@ -16,7 +16,8 @@ STATEMENT = ('after any history of public table operations every column has one 
              'iteration yields the rows, concat appends rows with None fill, operands are never altered and a non-fitting '
              'assignment is rejected with ValueError')
 LEAN_FILES = ['Basic', 'Cmp', 'Sort', 'TableBasic', 'Table', 'TableSpec', 'TableDriver', 'TableLemmas', 'TableRect', 'TableRows',
-              'TableCons', 'TableNodup', 'SliceLemmas', 'TableAbs', 'TableAbs2', 'TableAbsHeap', 'TableCall', 'C01']
+              'TableCons', 'TableNodup', 'SliceLemmas', 'TableAbs', 'TableAbs2', 'TableAbsHeap', 'TableCall', 'TableSpecPlain', 'TableAlias',
+              'TableMaskPlain', 'TableRagged', 'TableAliasSim', 'C01']
 RULE = ('distinct protocol lines of generated histories on which the implementation returned a value (not an exception); '
         'every line also compares the dump of all live tables')
 TRUSTED = ['correspondence harness (pv.engine, pv.proto) and generators / law checks of pv.props.c01',
@@ -25,11 +26,14 @@ ASSUMPTIONS = ['CPython dict semantics (insertion order, in-place overwrite), li
                'column ORDER of results is not modelled (dict_concat builds it from a python set); tables are compared as dicts',
                'callables are drawn from a fixed menu implemented on both sides (identity / is-None / coalesce / constant)',
                'cells are scalars (None, bool, int, quarter floats, NaN, str, datetime); container-valued cells are outside the model',
-               'aliasing is observed through the dump of all live handles after every operation, not through object identity (except `d + None is d`)']
+               'aliasing: `d + None` / `concat([d])` are checked to return d itself (object identity) and can be bound to a handle (`alias`); the model is the reference heap of TableAlias.lean; every reply dumps what ALL handles read']
 EXTRA = {}
 
 D = datetime.datetime
 NAMES = ['a', 'b', 'c', 'd']
+# column names that are also parameter names of dictable.__init__: legal keys of a dict of columns, of records, of
+# d[key] = value and targets of relabel - and swallowed wherever the code expands the columns into keywords
+RNAMES = ['data', 'columns', 'key']      # `key`: Dict.__call__ offers every callable `key = <name of the new column>` as a default
 CELLS = [None, None, 0, 1, 2, 3, -1, 7, 1.0, 2.5, -0.25, 0.5, 'x', 'y', 'zz', '', D(2020, 1, 1), D(2021, 6, 30, 12)]
 MAXH = 6
 
@@ -234,6 +238,14 @@ def apply_op(state, sx):
         if res is state[k]:
             return ('alias', k)
         raise AssertionError('d + None did not return d itself')
+    if op == 'alias':
+        # dst = d + None / dictable.concat([d]): the SAME object; from now on an assignment through one handle shows in both
+        src = state[_h(args[1])]
+        res = src + None if _h(args[0]) % 2 == 0 else dictable.concat([src])
+        if res is not src:
+            raise AssertionError('d + None / concat([d]) did not return d itself')
+        put(args[0], res)
+        return ('alias', _h(args[1]))
     if op == 'copy':
         return put(args[0], state[_h(args[1])].copy())
     if op == 'inc0':
@@ -245,7 +257,7 @@ def dump(state):
     return '(L' + ''.join(' ' + enc(dict(t)) for t in state) + ')'
 
 
-DST_OPS = ('new', 'slice', 'mask', 'take', 'proj', 'call', 'relabel', 'do', 'concat', 'add', 'addrec', 'copy', 'inc0')
+DST_OPS = ('new', 'slice', 'mask', 'take', 'proj', 'call', 'relabel', 'do', 'concat', 'add', 'addrec', 'copy', 'inc0', 'alias')
 
 
 def handles_ok(state, sx):
@@ -286,7 +298,8 @@ def run_line(state, sx):
 
 
 def compare(case, i, line, ir, mr):
-    if proto.same_reply(ir, mr):
+    # type-strict: no operation of the table API may turn an int cell into a float (or back); I:1 and F:1.0 differ
+    if proto.same_reply(ir, mr, numeric=False):
         return None
     if mr == 'bad-op' or ir == 'bad-op':
         return ('divergence', 'outside the modelled universe: implementation %s, model %s' % (ir[:200], mr[:200]))
@@ -296,13 +309,20 @@ def compare(case, i, line, ir, mr):
     if not (isinstance(a, list) and isinstance(b, list) and len(a) == 3 and len(b) == 3):
         return "malformed reply: implementation %s, model %s" % (ir[:200], mr[:200])
     oa, ob = a[1], b[1]
-    same_heap = proto.canon(a[2]) == proto.canon(b[2])
+    try:
+        same_heap = proto.canon(a[2], False) == proto.canon(b[2], False)
+    except Exception:
+        # e.g. a column whose name is the empty string (only produced when cells end up as column names)
+        return 'tables differ after the operation (a dump cannot be canonicalised): implementation %s, model %s' % (
+            proto.render(a[2])[:300], proto.render(b[2])[:300])
     ea = isinstance(oa, list) and oa and oa[0] == 'E'
     eb = isinstance(ob, list) and ob and ob[0] == 'E'
     if ea and eb and same_heap:
         return ('divergence', 'both raise, kinds differ: implementation %s, model %s' % (oa[1], ob[1]))
     if not same_heap:
         return 'tables differ after the operation: implementation %s, model %s' % (proto.render(a[2])[:300], proto.render(b[2])[:300])
+    if proto.canon(oa, False) == proto.canon(ob, False):
+        return None
     return 'outcome differs: implementation %s, model %s' % (proto.render(oa)[:200], proto.render(ob)[:200])
 
 
@@ -416,10 +436,16 @@ def g_new(S, dst=None, allow_bad=True):
         S.emit('(tbl new h%d N N %s)', dst, kv(d))
         S.bind(dst, cols, m)
     elif r < 0.5:       # a dict of columns as data
+        if cols and rng.random() < 0.15:
+            cols = cols[:-1] + [rng.choice(RNAMES)]
+            S.tags.add('reserved-name')
         d = {c: S.column(n) for c in cols}
         S.emit('(tbl new h%d %s N (D))', dst, kv(d))
         S.bind(dst, cols, n if cols else 0)
     elif r < 0.7:       # records, possibly with different key sets
+        if cols and rng.random() < 0.15:
+            cols = cols[:-1] + [rng.choice(RNAMES)]
+            S.tags.add('reserved-name')
         recs = []
         for _ in range(n):
             ks = [c for c in cols if rng.random() < 0.8]
@@ -442,15 +468,25 @@ def g_new(S, dst=None, allow_bad=True):
     elif r < 0.92:      # header row first
         if not cols:
             cols = S.names(1)
-        n = max(n, 1)
+        if n == 0:
+            S.tags.add('header-only')      # a header and no row: the columns, no rows
         rows = [list(cols)] + [[S.cell() for _ in cols] for _ in range(n)]
         S.emit('(tbl new h%d %s N (D))', dst, enc(rows))
         S.bind(dst, cols, n)
     else:               # columns= restriction of a dict, [None] fill, or columns alone
         want = S.names(rng.choice([1, 2, 3]))
-        if rng.random() < 0.4:
+        q = rng.random()
+        if q < 0.3:
             S.emit('(tbl new h%d N %s (D))', dst, enc(want))
             S.bind(dst, want, 0)
+        elif q < 0.55:      # records with columns=: the records restricted to these columns, None where a record lacks one
+            if not cols:
+                cols = S.names(2)
+            recs = [{c: S.cell() for c in cols if rng.random() < 0.8} for _ in range(n)]
+            allk = set(c for rec in recs for c in rec)
+            S.emit('(tbl new h%d (L%s) %s (D))', dst, ''.join(' ' + kv(rec) for rec in recs), enc(want))
+            S.bind(dst, want, 0 if not allk else (len(recs) if any(c in allk for c in want) else 1))
+            S.tags.add('new-records-columns')
         else:
             if not cols:
                 cols = S.names(2)
@@ -484,8 +520,11 @@ def g_op(S):
     if r < 0.08:
         return g_new(S)
     if r < 0.22:        # column assignment
-        key = rng.choice(NAMES) if rng.random() < 0.95 else rng.choice([1, 2])
+        q = rng.random()
+        key = rng.choice(NAMES) if q < 0.87 else rng.choice(RNAMES) if q < 0.95 else rng.choice([1, 2])
         name = str(key)
+        if key in RNAMES:
+            S.tags.add('reserved-name')
         if cols and rng.random() < 0.22:
             S.emit('(tbl setitem h%d %s %s)', h, enc(key), enc(S.misfit(n)))
             S.tags.add('setitem-misfit')
@@ -547,7 +586,7 @@ def g_op(S):
             k = rng.choice(cols) if cols and rng.random() < 0.85 else absent(cols)
             S.emit('(tbl col h%d %s)', h, enc(k))
         else:
-            ks = [rng.choice(cols) for _ in range(rng.choice([1, 2, 3]))] if cols and rng.random() < 0.9 else ['a', absent(cols)]
+            ks = [rng.choice(cols) for _ in range(rng.choice([0, 1, 2, 2, 3, 3]))] if cols and rng.random() < 0.9 else ['a', absent(cols)]
             S.emit('(tbl tup h%d %s)', h, enc(tuple(ks)))
         return
     dst = S.dst()
@@ -567,7 +606,10 @@ def g_op(S):
         return
     if r < 0.61:        # boolean mask
         q = rng.random()
-        if q < 0.12:
+        if q < 0.03:
+            m = []                     # d[[]]: no rows, all columns
+            S.tags.add('mask-empty-list')
+        elif q < 0.12:
             m = [False] * n if n else [False]
             S.tags.add('mask-all-false')
         elif q < 0.24:
@@ -580,11 +622,9 @@ def g_op(S):
             k = rng.choice([x for x in (2, 3, 4, 6) if x != n])
             m = [rng.random() < 0.5 for _ in range(k)]
             S.emit('(tbl mask h%d h%d %s)', dst, h, enc(m))
-            if n == 1:   # the single row is repeated by zipper
-                S.bind(dst, cols, sum(m))
-                S.tags.add('mask-one-row-broadcast')
-            else:
-                S.tags.add('mask-bad-length')
+            # neither one flag per row nor a single flag: ValueError - also for a one-row table (its row used to be
+            # repeated once per flag by zipper: defect C01-M1)
+            S.tags.add('mask-one-row-longer-mask' if n == 1 else 'mask-bad-length')
             return
         else:
             m = [rng.random() < 0.6 for _ in range(n)] if n else [rng.random() < 0.5]
@@ -646,6 +686,9 @@ def g_op(S):
             S.tags.add('call-const-misfit')
             return
         avail = list(idc)
+        if 'key' not in avail and rng.random() < 0.12:
+            avail.append('key')      # not a column: the callable receives the NAME of the column it defines
+            S.tags.add('call-key-default')
         if rng.random() < 0.5:
             k = rng.choice(NAMES)
             items[k] = enc(S.fit(n)[0])
@@ -684,12 +727,18 @@ def g_op(S):
             S.emit('(tbl relabel h%d h%d %s (D))', dst, h, enc(affix))
             new = [c + affix if affix.startswith('_') else affix + c if affix.endswith('_') else c for c in cols]
         else:
-            pool = [c for c in NAMES + ['e', 'f'] if c not in cols]
+            pool = [c for c in NAMES + ['e', 'f'] + RNAMES + RNAMES if c not in cols]
             olds = rng.sample(cols, min(len(cols), rng.choice([1, 1, 2]))) if cols else []
             mp = {}
             for o in olds:
                 if pool:
                     mp[o] = pool.pop(rng.randrange(len(pool)))
+                    pool = [c for c in pool if c != mp[o]]
+                    if mp[o] in RNAMES:
+                        S.tags.add('reserved-name')
+            # NOT generated: renaming onto an existing name. Which of the two columns survives depends on the column ORDER
+            # (dict comprehension: later value), and the order of a concatenation / of records comes from a python set:
+            # `dictable([dict(d='zz'), dict(b=3)]).relabel(b='d')` keeps either column. Proved on the model (abs_relabel_any).
             if rng.random() < 0.2:
                 mp[absent(cols)] = absent(cols + [absent(cols)])      # renaming a column that is not there changes nothing
             if len(cols) >= 2 and rng.random() < 0.1:
@@ -698,7 +747,7 @@ def g_op(S):
                 S.tags.add('relabel-swap')
             S.emit('(tbl relabel h%d h%d N %s)', dst, h, kv(mp))
             new = [mp.get(c, c) for c in cols]
-        S.bind(dst, new, n)
+        S.bind(dst, [c for i, c in enumerate(new) if c not in new[:i]], n)
         return
     if r < 0.91:        # per-column transform
         idc = [c for c in cols if c.isidentifier()]
@@ -748,6 +797,15 @@ def g_op(S):
         else:
             S.emit('(tbl addnone h%d %s)', h, rng.choice(['N', 'I:0', 'F:0']))
             S.tags.add('add-none')
+        return
+    if rng.random() < 0.45:
+        # bind the operand ITSELF to another handle: the shadow shares the entry, so later assignments show in both
+        S.emit('(tbl alias h%d h%d)', dst, h)
+        if dst == len(S.t):
+            S.t.append(S.t[h])
+        else:
+            S.t[dst] = S.t[h]
+        S.tags.add('alias-bound')
         return
     S.emit('(tbl %s h%d h%d)', rng.choice(['copy', 'inc0']), dst, h)
     S.bind(dst, cols, n)
@@ -879,8 +937,8 @@ def laws(rng, tier, ctx):
             # operands are never altered by operations that return a new table / a value
             mut = int(sx[2][1:]) if op in MUTATORS else None
             for k, (t, snap) in enumerate(zip(objs, before)):
-                if k == mut:
-                    continue
+                if k == mut or (mut is not None and t is objs[mut]):
+                    continue      # the assigned table, under each of the handles bound to that very object
                 if not _same_table(_snap(t), snap):
                     bad = 'operation %s altered the table h%d it did not assign to' % (op, k)
             if bad:
@@ -921,13 +979,48 @@ def laws(rng, tier, ctx):
                             all(_same_cell(g[c], w[c]) for c in keys) for g, w in zip(got, want)):
                         yield Finding('violation', case, 'concatenation is not the operands\' rows in order with None fill')
                         break
+            # renaming: every column is still there under its new name (distinct new names), same cells; a projection
+            # carries exactly the requested columns
+            if op == 'relabel' and raised is None:
+                src = before[int(sx[3][1:])]
+                affix = None if sx[4] == 'N' else proto.dec(sx[4])
+                mp = _dict(sx[5])
+
+                def newname(c):
+                    if c in mp:
+                        return mp[c]
+                    if affix and affix.startswith('_'):
+                        return c + affix
+                    if affix and affix.endswith('_'):
+                        return affix + c
+                    return c
+                names = [newname(c) for c in src]
+                if len(set(names)) == len(names):
+                    res = _snap(state[int(sx[2][1:])])
+                    if not _same_table(res, {newname(c): src[c] for c in src}):
+                        yield Finding('violation', case, 'relabel by an injective map lost or changed columns: %s -> %s, expected %s' % (
+                            list(src), list(res), names))
+                        break
+            if op == 'proj' and raised is None:
+                src = before[int(sx[3][1:])]
+                ks = proto.dec(sx[4])
+                if ks:
+                    res = _snap(state[int(sx[2][1:])])
+                    uniq = [k for i, k in enumerate(ks) if k not in ks[:i]]
+                    if not _same_table(res, {k: src[k] for k in uniq}):
+                        yield Finding('violation', case, 'd[%r] does not carry exactly the requested columns: %s' % (ks, list(res)))
+                        break
             # a mask of the table's length keeps exactly the flagged rows, in order, and all columns
             if op == 'mask' and raised is None:
                 src = before[int(sx[3][1:])]
                 m = proto.dec(sx[4])
                 n0 = len(list(src.values())[0]) if src else 0
+                res = _snap(state[int(sx[2][1:])])
+                n1 = len(list(res.values())[0]) if res else 0
+                if n1 > n0:
+                    yield Finding('violation', case, 'd[mask] has %d rows, the table has %d: a mask selects rows, it cannot add any' % (n1, n0))
+                    break
                 if len(m) == n0:
-                    res = _snap(state[int(sx[2][1:])])
                     if set(res) != set(src) or not all(len(res[c]) == sum(m) and all(
                             _same_cell(x, y) for x, y in zip(res[c], [v for v, tf in zip(src[c], m) if tf])) for c in src):
                         yield Finding('violation', case, 'd[mask] is not the flagged rows in order with all columns')
